@@ -424,6 +424,43 @@ fn run_case(k: usize, mut doc: Document, cfg0: &Value, user: &str, owner: &str, 
                 }
                 Err(e) => Err(format!("{e:?}").chars().take(60).collect()),
             }),
+            // the encrypted form of the (unencrypted) document as a two-revision file with object streams
+            "SaveRev" => match &state {
+                _ if doc.trailer.get(b"Encrypt").is_ok() => Ok(Err("harness:encrypted".into())),
+                None => Ok(Err("harness:no-state".into())),
+                Some(st) => match guarded(|| two_revision_file(&doc, st, &mut rng)) {
+                    Ok(Some((b, moved))) => {
+                        file = Some(b);
+                        items.iter_mut().filter(|it| it.id == moved).for_each(|it| it.osm = true);
+                        Ok(Ok(()))
+                    }
+                    Ok(None) => Ok(Err("harness:no-member".into())),
+                    Err(p) => Err(p),
+                },
+            },
+            // an incremental update of the saved file that rewrites one object with the value it has
+            "SaveInc" => match &file {
+                None => Ok(Err("harness:no-file".into())),
+                Some(b) => guarded(|| -> Result<Vec<u8>, String> {
+                    let mut inc = lopdf::IncrementalDocument::load_from(&b[..]).map_err(|e| format!("load:{e:?}"))?;
+                    let id = inc.get_prev_documents().objects.iter().find(|(_, o)| !bookkeeping(o) && !matches!(o.type_name(), Ok(b"Catalog")))
+                        .map(|(id, _)| *id).ok_or("harness:no-object".to_string())?;
+                    if inc.get_prev_documents().trailer.get(b"Encrypt").and_then(Object::as_reference).ok() == Some(id) {
+                        return Err("harness:no-object".into());
+                    }
+                    inc.opt_clone_object_to_new_document(id).map_err(|e| format!("clone:{e:?}"))?;
+                    let mut out = vec![];
+                    inc.save_to(&mut out).map_err(|e| format!("save:{e:?}"))?;
+                    Ok(out)
+                })
+                .map(|x| match x {
+                    Ok(nb) => {
+                        file = Some(nb);
+                        Ok(())
+                    }
+                    Err(e) => Err(e.chars().take(60).collect()),
+                }),
+            },
             "Load" => match &file {
                 None => Ok(Err("harness:no-file".into())),
                 Some(b) => guarded(|| Document::load_mem(b)).map(|x| match x {
@@ -619,6 +656,114 @@ fn assemble(doc: &Document, containers: &[(u32, Vec<(u32, u16)>)], xref_id: u32)
     out.extend_from_slice(b"\nendstream\nendobj\n");
     out.extend_from_slice(format!("startxref\n{start}\n%%EOF").as_bytes());
     out
+}
+
+fn write_object(out: &mut Vec<u8>, id: (u32, u16), o: &Object) {
+    out.extend_from_slice(format!("{} {} obj\n", id.0, id.1).as_bytes());
+    match o {
+        Object::Stream(s) => {
+            let mut d = s.dict.clone();
+            d.set("Length", s.content.len() as i64);
+            ser_dict(&d, false, out);
+            out.extend_from_slice(b"\nstream\n");
+            out.extend_from_slice(&s.content);
+            out.extend_from_slice(b"\nendstream");
+        }
+        o => ser(o, out),
+    }
+    out.extend_from_slice(b"\nendobj\n");
+}
+
+/// a cross-reference stream (/W [1 4 2], one /Index subsection per entry) numbered `id`, carrying `trailer`
+fn write_xref_stream(out: &mut Vec<u8>, id: u32, entries: &mut BTreeMap<u32, (u8, u32, u16)>, size: u32, trailer: &Dictionary, prev: Option<usize>) -> usize {
+    let start = out.len();
+    entries.insert(id, (1, start as u32, 0));
+    let (mut table, mut index) = (Vec::new(), String::new());
+    for (n, (t, a, b)) in entries.iter() {
+        index.push_str(&format!("{n} 1 "));
+        table.push(*t);
+        table.extend_from_slice(&a.to_be_bytes());
+        table.extend_from_slice(&b.to_be_bytes());
+    }
+    let mut d = Dictionary::new();
+    for (k, v) in trailer.iter() {
+        if ![&b"Type"[..], b"Size", b"W", b"Index", b"Length", b"Filter", b"DecodeParms", b"Prev", b"XRefStm"].contains(&&k[..]) {
+            d.set(k.clone(), v.clone());
+        }
+    }
+    if let Some(p) = prev {
+        d.set("Prev", p as i64);
+    }
+    out.extend_from_slice(format!("{id} 0 obj\n<</Type/XRef/Size {size}/W[1 4 2]/Index[{index}]/Length {}", table.len()).as_bytes());
+    let mut rest = Vec::new();
+    ser_dict(&d, false, &mut rest);
+    out.extend_from_slice(&rest[2..]);
+    out.extend_from_slice(b"\nstream\n");
+    out.extend_from_slice(&table);
+    out.extend_from_slice(b"\nendstream\nendobj\n");
+    start
+}
+
+fn object_stream(members: &[((u32, u16), Object)]) -> Object {
+    let (mut index, mut body) = (Vec::new(), Vec::new());
+    for (id, o) in members {
+        index.extend_from_slice(format!("{} {} ", id.0, body.len()).as_bytes());
+        ser(o, &mut body);
+        body.push(b'\n');
+    }
+    let mut d = Dictionary::new();
+    d.set("Type", Object::Name(b"ObjStm".to_vec()));
+    d.set("N", members.len() as i64);
+    d.set("First", index.len() as i64);
+    index.extend_from_slice(&body);
+    Object::Stream(Stream::new(d, index))
+}
+
+/// What another producer may write for the encrypted form of `plain`: a file of TWO revisions with cross-reference
+/// streams in which object `moved` lives in an object stream of revision 1 (an older value) and in a new object stream
+/// of revision 2 (its value in `plain`); other eligible objects stay in the first container.  The ciphertext is made
+/// by lopdf's own Document::encrypt (object streams are encrypted as streams, their members are not).  Returns the
+/// file and the id of `moved`; None if the document has no eligible object.
+fn two_revision_file(plain: &Document, state: &EncryptionState, rng: &mut Rng) -> Option<(Vec<u8>, (u32, u16))> {
+    let mut d = plain.clone();
+    d.objects.retain(|_, o| !bookkeeping(o));
+    let eligible: Vec<(u32, u16)> = d.objects.iter()
+        .filter(|(id, o)| id.1 == 0 && !matches!(o, Object::Stream(_)) && walk(o, **id, &mut vec![], &Ctx { insd: false, otyp: "-", inmd: false }, &mut vec![]).is_some())
+        .map(|(id, _)| *id).take(3).collect();
+    let moved = *eligible.first()?;
+    let top = d.objects.keys().map(|k| k.0).max().unwrap_or(0).max(d.max_id);
+    let (c1, c2) = (top + 1, top + 2);
+    let mut old = d.objects[&moved].clone();
+    edit(&mut old, rng);
+    let first: Vec<((u32, u16), Object)> = eligible.iter().map(|id| (*id, if *id == moved { old.clone() } else { d.objects[id].clone() })).collect();
+    let second = vec![(moved, d.objects[&moved].clone())];
+    for id in &eligible {
+        d.objects.remove(id);
+    }
+    d.objects.insert((c1, 0), object_stream(&first));
+    d.objects.insert((c2, 0), object_stream(&second));
+    d.max_id = c2;
+    d.encrypt(state).ok()?;
+    let mut out: Vec<u8> = b"%PDF-1.5\n%\xE2\xE3\xCF\xD3\n".to_vec();
+    let mut e1: BTreeMap<u32, (u8, u32, u16)> = BTreeMap::new();
+    e1.insert(0, (0, 0, 65535));
+    for (id, o) in d.objects.iter().filter(|(id, _)| id.0 != c2) {
+        e1.insert(id.0, (1, out.len() as u32, id.1));
+        write_object(&mut out, *id, o);
+    }
+    for (i, (id, _)) in first.iter().enumerate() {
+        e1.insert(id.0, (2, c1, i as u16));
+    }
+    let (x1, x2) = (d.max_id + 1, d.max_id + 2);
+    let start1 = write_xref_stream(&mut out, x1, &mut e1, x1 + 1, &d.trailer, None);
+    out.extend_from_slice(format!("startxref\n{start1}\n%%EOF\n").as_bytes());
+    let mut e2: BTreeMap<u32, (u8, u32, u16)> = BTreeMap::new();
+    e2.insert(c2, (1, out.len() as u32, 0));
+    write_object(&mut out, (c2, 0), &d.objects[&(c2, 0)]);
+    e2.insert(moved.0, (2, c2, 0));
+    let start2 = write_xref_stream(&mut out, x2, &mut e2, x2 + 1, &d.trailer, Some(start1));
+    out.extend_from_slice(format!("startxref\n{start2}\n%%EOF").as_bytes());
+    Some((out, moved))
 }
 
 /// `doc` written as a file with an xref stream (and, with `with_objstm`, object streams holding a seeded choice of its
@@ -938,6 +1083,18 @@ fn rand_calls(rng: &mut Rng, cfg: &Value, user: &str, owner: &str, editable: &[u
         }
     };
     let mut calls = vec![json!({"call": "MakeState"})];
+    if rng.chance(1, 6) {
+        // the encrypted form of the document as another producer may lay it out (two revisions, object streams, one
+        // object moved to a new container), loaded (auto-decrypt with an empty password) and decrypted
+        edits(rng, &mut calls, 1, 2);
+        calls.push(json!({"call": "SaveRev"}));
+        calls.push(json!({"call": "Load"}));
+        if rng.chance(1, 3) {
+            calls.push(json!({"call": "Decrypt", "pw": wrong(rng)}));
+        }
+        calls.push(json!({"call": "Decrypt", "pw": if rng.chance(1, 2) { user.to_string() } else { owner.to_string() }}));
+        return calls;
+    }
     if rng.chance(3, 4) {
         // the canonical life-cycle with optional detours
         edits(rng, &mut calls, 1, 2);
@@ -949,6 +1106,10 @@ fn rand_calls(rng: &mut Rng, cfg: &Value, user: &str, owner: &str, editable: &[u
         }
         if rng.chance(1, 2) {
             calls.push(json!({"call": "Save"}));
+            // an incremental update of the encrypted file (more often where the loader decrypts by itself)
+            if rng.chance(if user.is_empty() || owner.is_empty() { 2 } else { 1 }, 3) {
+                calls.push(json!({"call": "SaveInc"}));
+            }
             calls.push(json!({"call": "Load"}));
             if rng.chance(1, 3) {
                 calls.push(json!({"call": "Auth", "pw": pw(rng)}));
@@ -1029,9 +1190,12 @@ fn main() {
             let mut cases = vec![];
             for _ in 0..n {
                 let cfg = rand_cfg(&mut rng);
-                let uc = rng.below(12);
+                // two thirds of the passwords from the classes every revision can represent (a configuration with another
+                // one is refused at revisions 2-4 since fix 9c92c82, which ends the run early)
+                let class = |rng: &mut Rng| if rng.chance(2, 3) { *rng.pick(&[0usize, 0, 1, 1, 2, 5, 6, 7]) } else { rng.below(12) };
+                let uc = class(&mut rng);
                 let user = rand_string(&mut rng, uc);
-                let owner = if rng.chance(1, 6) { user.clone() } else { let oc = rng.below(12); rand_string(&mut rng, oc) };
+                let owner = if rng.chance(1, 6) { user.clone() } else { let oc = class(&mut rng); rand_string(&mut rng, oc) };
                 let mut doc = rand_doc(&mut rng, &cfg);
                 // the state of the document: built in memory, or what load_mem leaves of a file with an xref stream
                 // without / with object streams
